@@ -1,7 +1,7 @@
 (* Run/C18: evaluation of model and property on harness cases.
    Every input is emitted twice by the harness: kind KWire (acceptance, wire data, decoders,
    record row) and kind KRt (printing the stored list and parsing the print again). *)
-From DnsV Require Import Model.Svcb Spec.SvcbWire.
+From DnsV Require Export Model.Svcb Spec.SvcbWire.
 Open Scope N_scope.
 
 Inductive kind := KWire | KRt.
